@@ -575,7 +575,9 @@ func (a *Options) Equal(b *Options) bool {
 	}
 
 	// Compare "jsx"
-	if a.jsx.Parse != b.jsx.Parse || !jsxExprsEqual(a.jsx.Factory, b.jsx.Factory) || !jsxExprsEqual(a.jsx.Fragment, b.jsx.Fragment) {
+	if a.jsx.Parse != b.jsx.Parse || a.jsx.Preserve != b.jsx.Preserve || a.jsx.AutomaticRuntime != b.jsx.AutomaticRuntime ||
+		a.jsx.ImportSource != b.jsx.ImportSource || a.jsx.Development != b.jsx.Development || a.jsx.SideEffects != b.jsx.SideEffects ||
+		!jsxExprsEqual(a.jsx.Factory, b.jsx.Factory) || !jsxExprsEqual(a.jsx.Fragment, b.jsx.Fragment) {
 		return false
 	}
 
